@@ -26,9 +26,9 @@ class AbstractNet:
         self.pos = []        # signals read by output cells
 
 
-def gen_abstract(rng, n_gates=None, seq=True, allow_unconnected=True, allow_dangling=True):
+def gen_abstract(rng, n_gates=None, seq=True, allow_unconnected=True, allow_dangling=True, kinds=None, n_pi=None, distinct_ins=False):
     a = AbstractNet()
-    a.n_pi = rng.randint(1, 6)
+    a.n_pi = n_pi if n_pi is not None else rng.randint(1, 6)
     n_ff = rng.choice([0, 0, 1, 2, 3]) if seq else 0
     n_la = rng.choice([0, 0, 0, 1]) if seq else 0
     n_gates = n_gates if n_gates is not None else rng.choice([1, 2, 3, 5, 8, 12, 20, 35])
@@ -42,11 +42,14 @@ def gen_abstract(rng, n_gates=None, seq=True, allow_unconnected=True, allow_dang
         a.latches.append({'kind': rng.choice(['LATCH', 'latchx1']), 'd': None})
         sigs.append(('lq', l))
     for g in range(n_gates):
-        kind, ar = rng.choice(GATE_KINDS)
+        kind, ar = rng.choice(kinds or GATE_KINDS)
         ins = []
         for p in range(ar):
             # bias towards recent signals for depth and reconvergence
             s = sigs[-1 - min(len(sigs) - 1, int(rng.expovariate(0.25)))] if rng.random() < 0.6 else rng.choice(sigs)
+            if distinct_ins and s in ins:
+                rest = [x for x in sigs if x not in ins]
+                s = rng.choice(rest) if rest else s
             ins.append(s)
         if allow_unconnected and rng.random() < 0.12:
             # leave a pin unconnected (reads constant 0): high pins for variadic families, any pin otherwise
